@@ -108,3 +108,19 @@ func BoxesGen(lo, hi int) *rapid.Generator[[]string] {
 		return out
 	})
 }
+
+// SizedMsgGen draws a message whose body has one of the given sizes (±jitter), content a
+// repeated byte, so the case stays small while sizes vary.
+func SizedMsgGen(sizes []int) *rapid.Generator[*MsgSpec] {
+	return rapid.Custom(func(t *rapid.T) *MsgSpec {
+		n := rapid.SampledFrom(sizes).Draw(t, "size") + rapid.IntRange(0, 40).Draw(t, "jitter")
+		b := rapid.Byte().Draw(t, "fill")
+		body := make([]byte, n)
+		for i := range body {
+			body[i] = b
+		}
+		a := Addr{Address: "s@example.com"}
+		return &MsgSpec{From: &a, To: []Addr{{Address: "r@example.com"}}, DateOff: rapid.IntRange(0, 1000).Draw(t, "dateoff"),
+			Subject: "sized", Body: body}
+	})
+}
